@@ -27,6 +27,18 @@ def opsXfer (op : String) (a : List String) : Option String :=
     let t0 : Tcs := ⟨if holder = "-" then none else some holder⟩
     let (t, _, r) := getSchedule true t0 z true ver [none] frags
     some ("ok\t" ++ (if t.lockIdx = none then "released" else "kept") ++ "\t" ++ showResult r)
+  | "xfer.set", [z, holder, cacheS, cacheV, new, toks, ver] =>
+    -- a write: the W exchanges ("a" / "f" / "c" separated by ;) then the 0006 read
+    let ws := (if toks = "" then [] else toks.splitOn ";").filterMap fun x =>
+      if x = "a" then some WExch.ack else if x = "f" then some WExch.fail else if x = "c" then some WExch.cancel else none
+    let cs : Option Nat := if cacheS = "-" then none else cacheS.toNat?
+    match cacheV.toNat?, new.toNat?, (if ver = "-" then some Exch.cancel else parseExch ver) with
+    | some cv, some nw, some ve =>
+      let t0 : Tcs := ⟨if holder = "-" then none else some holder⟩
+      let (t, c, r) := setSchedule false t0 z true ⟨cs, cv⟩ nw ws ve
+      some ("ok\t" ++ (if t.lockIdx = none then "released" else "kept") ++ "\t" ++ showResult r ++ "\t" ++
+        (match c.sched with | some x => toString x | none => "-") ++ ":" ++ toString c.ver)
+    | _, _, _ => none
   | _, _ => none
 
 end Driver
